@@ -54,14 +54,17 @@ def _gen_fresh(r, depth, max_depth, pool):
                              {kk: gen_value(r, depth + 1, max_depth) for kk in r.sample(KEYS, r.randint(0, 2))})
     if k < 0.93:
         return vclasses.Purse(r.randint(0, 30), [gen_value(r, depth + 1, max_depth) for _ in range(r.randint(0, 2))], r.choice(STR))
-    if k < 0.96:
+    if k < 0.95:
         from bardic.stdlib.economy import Wallet
         return Wallet(r.randint(0, 90))
-    if k < 0.98:
+    if k < 0.985:
         from bardic.stdlib.inventory import Inventory
-        inv = Inventory(r.randint(5, 20))
-        for _ in range(r.randint(0, 2)):
-            inv.add({"name": r.choice(["Sword", "Gem"]), "weight": r.randint(0, 3), "value": r.randint(0, 9)})
+        inv = (Inventory(r.randint(5, 20)) if r.random() < 0.5 or vclasses.Backpack is None
+               else vclasses.Backpack(r.randint(5, 20), r.choice(["Mira", "Ayla"]), r.randint(1, 6)))
+        for _ in range(r.randint(0, 3)):
+            inv.add({"name": r.choice(["Sword", "Gem", "Anvil"]), "weight": r.randint(0, 6), "value": r.randint(0, 9)})
+        if r.random() < 0.4:
+            inv.max_weight = r.randint(0, 4)       # the story lowered the limit later: the inventory is over capacity now
         return inv
     from bardic.stdlib.relationship import Relationship
     rel = Relationship("Alex", r.randint(0, 100), r.randint(0, 100), r.randint(-10, 10))
@@ -72,8 +75,11 @@ def registry():
     from bardic.stdlib.economy import Wallet
     from bardic.stdlib.inventory import Inventory
     from bardic.stdlib.relationship import Relationship
-    return {"Card": vclasses.Card, "Deck": vclasses.Deck, "Purse": vclasses.Purse, "Wallet": Wallet,
-            "Inventory": Inventory, "Relationship": Relationship}
+    reg = {"Card": vclasses.Card, "Deck": vclasses.Deck, "Purse": vclasses.Purse, "Wallet": Wallet,
+           "Inventory": Inventory, "Relationship": Relationship}
+    if vclasses.Backpack is not None:
+        reg["Backpack"] = vclasses.Backpack
+    return reg
 
 
 def kind_of(cls):
@@ -134,9 +140,38 @@ def methods_work(v):
         return v.can_afford(0) and v.gold >= 0
     if t == "Inventory":
         return v.current_weight >= 0
+    if t == "Backpack":
+        return v.current_weight >= 0 and v.describe().startswith(str(v.owner))
     if t == "Relationship":
         return isinstance(v.relationship_quality, str)
     return True
+
+
+PROPS_SEEN = ("gold", "trust", "comfort", "openness", "coins", "current_weight")
+
+
+def observe(v):
+    """what a story can see of a value, independent of how it is serialised: public attributes, the stdlib's
+    read-only properties, container structure (tuples read as lists)"""
+    if isinstance(v, (list, tuple)):
+        return [observe(x) for x in v]
+    if isinstance(v, set):
+        return sorted(observe(x) for x in v)
+    if isinstance(v, dict):
+        return {str(k): observe(x) for k, x in v.items()}
+    if v is None or isinstance(v, (bool, int, float, str)):
+        return v
+    out = {"__class__": type(v).__name__}
+    for k, x in vars(v).items():
+        if not k.startswith("_"):
+            out[k] = observe(x)
+    for p_ in PROPS_SEEN:
+        if hasattr(type(v), p_):
+            try:
+                out["." + p_] = observe(getattr(v, p_))
+            except Exception:  # noqa
+                out["." + p_] = "<raises>"
+    return out
 
 
 def real_roundtrip(value):
@@ -183,7 +218,13 @@ def _chunk(arg):
             out["disagreements"].append({"family": "c06-codec", "id": c["id"], "detail": dis, "value": c["value"]})
         else:
             out["agree"] += 1
-        # the property on the real result: equal value of the same type, tuples as lists, methods working
+        # the property on the real result, independent of the model and of any to_save_dict: what a story can observe
+        # of the value (public attributes, properties, structure) is the same before and after
+        if m.get("supported") and observe(loaded) != observe(v):
+            out["fails"].append({"cls": None, "what": "the rebuilt value differs observably from the saved one: "
+                                 + json.dumps(first_diff(observe(v), observe(loaded), ""))[:200],
+                                 "family": "c06-codec", "id": c["id"], "value": c["value"]})
+        # equal value of the same type, tuples as lists, methods working
         if m.get("supported"):
             if canon(d_loaded) != canon(m.get("norm")):
                 out["fails"].append({"cls": None, "what": "value did not survive save -> JSON -> load as an equal value of the same type",
